@@ -390,6 +390,9 @@ def _run_deliver(case):
                 cls.append("hot-late-subscriber-missed-some" if len(exp) < len(msgs) else "hot-late-subscriber-saw-all")
         else:
             exp = _exp_msgs(msgs, ts, Fraction(t_sub), lookup, err_tag)
+        if api == "hot" and j > 0 and exp and exp[-1][1] in "CE" and [g[1:] for g in got] == [e[1:] for e in exp[:-1]] and _probe_events(probes[0][0])[-1:][0][1] in "CE":
+            # root cause bucket of its own: an earlier subscriber got the terminal, this one did not
+            return FAIL("terminal-not-delivered-to-later-subscriber|hot", f"hot({s!r}, {kw}): subscriber #{j} (subscribed at {t_sub}) received {[g[1:] for g in got]} but never the terminal {exp[-1][1:]} that subscriber #0 received; case={case}", classes=cls)
         bad = _cmp(exp, got, exact, f"{api}({s!r}, {kw}) subscriber #{j} at {t_sub}", case, tol=tol)
         if bad:
             return FAIL(f"{bad[0]}{':late' if j else ''}|{api}", f"{bad[1]}; case={case}", classes=cls)
@@ -445,13 +448,18 @@ _NOT_WORDS = {"nan", "inf", "infinity"}
 
 
 def _classify(text):
+    """Value token for a maximal run of non-special characters, or None if the docs/tests do not settle its meaning."""
+    if not re.fullmatch(r"[A-Za-z0-9.]+", text):
+        return None
     if re.fullmatch(r"[0-9]+", text):
         return ["v", text, "i"]
-    if re.fullmatch(r"[0-9]+\.[0-9]+", text) or re.fullmatch(r"[0-9]+(\.[0-9]+)?e[0-9]{1,2}", text):
+    if re.fullmatch(r"[0-9]+\.[0-9]+", text) or re.fullmatch(r"[0-9]+(\.[0-9]+)?[eE][0-9]{1,2}", text):
         return ["v", text, "f"]
-    if re.fullmatch(r"[A-Za-z][A-Za-z0-9]*", text) and text.lower() not in _NOT_WORDS:
-        return ["v", text, "s"]
-    return None
+    try:
+        float(text)  # number-like in a form the documentation does not show ('.5', '1.', 'nan', 'inf', '1e999'): not judged
+        return None
+    except ValueError:
+        return ["v", text, "s"]  # not a number under any reading: the characters are the value
 
 
 def scan(s):
@@ -501,8 +509,11 @@ def scan(s):
 
 
 _LITERAL = set("abcdefghijklmnopqrstuvwxyzABCDEFGHIJKLMNOPQRSTUVWXYZ0123456789-|#(),. ")
-_FALLBACK = "-------|#(,),,--ab12 .--"
-_CH = [chr(b) if chr(b) in _LITERAL else _FALLBACK[b % len(_FALLBACK)] for b in range(256)]
+# bytes that are not marble characters decode to whole fragments, so that random byte strings are mostly inside the
+# documented language while a seed made of marble characters still decodes to itself
+_FRAGMENTS = ["-", "--", "---", "-", "--", "|", "#", "a", "b", "ab", "cd", "12", "7", "1.5", "x1", "(a,b)", "(ab,12)", "(1,|)", "(a,#)",
+              "(|)", "(x)", "(a,b,c)", " ", "-", "--", "(1.5,a)", "0", "-a-", "-b", "-1-", "(12,3,4)", "-----", "2e3", "(b,|)", "  "]
+_CH = [chr(b) if chr(b) in _LITERAL else _FRAGMENTS[b % len(_FRAGMENTS)] for b in range(256)]
 _RAW_TS = [None, ["n", 1], ["n", 2], ["n", 0.5], ["n", 0.25], ["td", 500000], ["x", "0.1"], ["n", 10]]
 _RAW_SH = [None, ["n", 0], ["n", 1], ["n", 200], ["n", 0.5], ["td", 250000], ["n", 10.0], ["n", 3]]
 
